@@ -7,8 +7,8 @@
 (*              -> must it be accepted (Valid) or rejected                   *)
 (*   "dict"     every valid record of DictUniverse -> dict() keys,          *)
 (*              from_dict round trip, to_slurm_options mentions             *)
-(*   "cmax"     every operand list of length Len over the pool `Pool`       *)
-(*              -> combine_max                                              *)
+(*   "cmax"     every operand list of length MinOps..NOps over the pool    *)
+(*              `Pool` -> combine_max                                       *)
 (*   "defaults" every (receiver, defaults) pair of PoolR x PoolD            *)
 (*   "update"   every (receiver, kwargs) pair of PoolU x Kw                 *)
 (* One state per case (`case`, `out`), laws are INVARIANTs, `Emit` prints   *)
@@ -23,7 +23,7 @@
 (* congruent to Shard modulo NShards are explored by one TLC process.        *)
 (***************************************************************************)
 EXTENDS Resources, Json, SequencesExt
-CONSTANTS Mode, Pool, Len, Depth, Thorough, Shard, NShards
+CONSTANTS Mode, Pool, MinOps, NOps, Depth, Thorough, Shard, NShards
 VARIABLES case, out, objs, hist
 vars == <<case, out, objs, hist>>
 
@@ -38,7 +38,7 @@ F1(x)     == <<x, 1>>
 
 (* memory: {B..PB} x {1, 1.5, 2, 10, 512, 1000} *)
 MemNums  == {N(1), <<1, 1, 1, 5, 1>>, N(2), N(10), N(512), N(1000)}
-MemValid == {Mem(n, u) : n \in MemNums, u \in Range(Units)}
+MemValid == {Mem(n, u) : n \in MemNums, u \in RangeOf(Units)}
 MemBad   == { Mem(N(16), "XYZ"),                                   \* "16XYZ"
               Mem(<<0, 0, 0, 0, 0>>, "GB"),                        \* "GB"
               Mem(<<0, 0, 0, 0, 0>>, ""),                          \* ""
@@ -102,8 +102,8 @@ ASSUME MemCmp(Mem(N(1000), "MB"), Mem(N(1), "GB")) = 0 /\ MemCmp(Mem(N(1), "PB")
 ASSUME MemCmp(Mem(N(1000), "B"), Mem(N(1), "PB")) = -1 /\ MemCmp(Mem(N(1), "PB"), Mem(N(1000), "B")) = 1
 ASSUME MemCmp(Mem(<<1, 1, 1, 5, 1>>, "GB"), Mem(N(1000), "MB")) = 1
 ASSUME MemCmp(Mem(N(512), "KB"), Mem(N(1), "MB")) = -1 /\ MemCmp(Mem(N(1), "KB"), Mem(N(512), "B")) = 1
-ASSUME \A a, b \in MemValid : MemCmp(a, b) = 0 - MemCmp(b, a)
-ASSUME \A a, b, c \in MemValid : (MemCmp(a, b) >= 0 /\ MemCmp(b, c) >= 0) => MemCmp(a, c) >= 0
+ASSUME Mode = "ctor" => \A a, b \in MemValid : MemCmp(a, b) = 0 - MemCmp(b, a)
+ASSUME Mode = "ctor" => \A a, b, c \in MemValid : (MemCmp(a, b) >= 0 /\ MemCmp(b, c) >= 0) => MemCmp(a, c) >= 0
 ASSUME \A m \in MemValid : MemWellFormed(m) /\ MemInScope(m)
 ASSUME \A m \in MemBad : ~MemWellFormed(m) /\ MemInScope(m)
 ASSUME \A t \in TimeValid : TimeWellFormed(t) /\ TimeInScope(t)
@@ -145,7 +145,7 @@ PoolSet(name) ==
                  \cup {Ints(NoneI, NoneI, 2, NoneI), Ints(NoneI, 1, 1, 3)}
       [] name = "mem"   -> {[Blank EXCEPT !.memory = <<m>>] : m \in MemValid} \cup {Blank}
       [] name = "mem18" -> {[Blank EXCEPT !.memory = <<Mem(n, u)>>] :
-                               n \in {N(1), <<1, 1, 1, 5, 1>>, N(1000)}, u \in Range(Units)} \cup {Blank}
+                               n \in {N(1), <<1, 1, 1, 5, 1>>, N(1000)}, u \in RangeOf(Units)} \cup {Blank}
       [] name = "time"  -> {[Blank EXCEPT !.time = <<t>>] : t \in TimeValid} \cup {Blank}
       [] name = "mixed" ->
             {[Ints(c, NoneI, NoneI, NoneI) EXCEPT !.memory = m, !.time = t, !.partition = px[1], !.extra = px[2]] :
@@ -160,7 +160,7 @@ PoolSet(name) ==
                 px \in {<<"", K2>>, <<"p", K1>>}}
 PoolSeq == IF Mode = "cmax" THEN SetToSeq(PoolSet(Pool)) ELSE <<>>
 Operands(c) == [i \in DOMAIN c |-> PoolSeq[c[i]]]
-CmaxUniverse == {c \in [1..Len -> 1..Len(PoolSeq)] : c[1] % NShards = Shard}
+CmaxUniverse == UNION {{c \in [1..n -> 1..Len(PoolSeq)] : c[1] % NShards = Shard} : n \in MinOps..NOps}
 
 (* receivers / defaults for with_defaults: the two pools use different values in every field *)
 PoolRSet ==
@@ -304,7 +304,7 @@ LawScope ==               \* every case stays inside what the property decides
 StepUnchanged == [][ExistingUnchanged(objs, objs')]_vars
 
 (* ---- export ---- *)
-PosList(S) == SetToSortSeq(S, <)
+PosList(S) == SetToSortSeq(S, LAMBDA a, b : a < b)
 Emit ==
     CASE Mode = "ctor" -> PrintT(<<"CASE", ToJson([c |-> Enc(case), valid |-> out.valid])>>)
       [] Mode = "dict" -> PrintT(<<"CASE", ToJson([c |-> Enc(case), keys |-> out.keys, mentions |-> out.mentions])>>)
